@@ -67,7 +67,7 @@ NAME_SETS = [
 ]
 
 
-def header_program(rnd, names, salt, order):
+def header_program(rnd, names, salt, order, comments=0):
     from pyabv.gen.literals import render_lit
     from pyabv.ref.parse import Lit
 
@@ -76,6 +76,13 @@ def header_program(rnd, names, salt, order):
     n = rnd.choice([2, 2, 3, 5, 10])
     ws = [rnd.choice(["1", "1", "2", "3", "10"]) for _ in range(n)]
     groups = ", ".join(f'"g{i}" weighted {w}' for i, w in enumerate(ws))
+    if comments == 1:
+        # a header annotated the way people annotate configuration: several block comments on the line of each clause
+        s2 = f'/* was "v1" */ {s}/* bumped */ ' if s else "/* no salt */ /* yet */ "
+        return f"def p {{ {s2}/* ids: */ splitters: /* a */ {', /* b */ '.join(fields)} /* end of header */ return /* r */ {groups} /* done */ }}"
+    if comments == 2:
+        s2 = f"{s}// the salt *is* part of the key */\n" if s else "// no salt /* here\n"
+        return f"def p {{ /** doc **/\n{s2}splitters: {', '.join(fields)} // fields * / \n/* 2 * 3 */ return {groups} }}"
     return f"def p {{ {s}splitters: {', '.join(fields)} return {groups} }}"
 
 
@@ -114,7 +121,7 @@ def run(ctx):
                     continue
                 if ctx.quick() and idx % 3:
                     continue
-                text = header_program(rnd, names, salt, order)
+                text = header_program(rnd, names, salt, order, comments=idx % 3)
                 st = ref_parse(text)
                 c = im.construct(text)
                 if st[0] != "ok" or c[0] != "ok":
@@ -139,6 +146,27 @@ def run(ctx):
                         check(ctx, im, st[1], text, c[1], env, "headers")  # and again: must not be a random draw
                 ctx.seen("salts", repr(salt))
     ctx.sample(dict(layer="headers", text=text, env=env))
+    # salt sweep: every hostile string of the literal pool as the salt (number-like - "007", "1.50", "1e3", " 12" -, escapes,
+    # quotes, control characters ...): the hashed prefix is the text between the quotes, nothing else
+    from pyabv.gen import literals as L
+
+    for si, sv in enumerate([x for x in L.TRICKY_STRINGS if L.expressible(x)]):
+        idx += 1
+        if not ctx.mine(idx):
+            continue
+        names = NAME_SETS[si % len(NAME_SETS)]
+        text = header_program(rnd, names, sv, list(range(len(names))), comments=si % 3)
+        st = ref_parse(text)
+        if st[0] != "ok":
+            ctx.count("harness/reference-did-not-accept")
+            continue
+        c = im.construct(text)
+        if c[0] != "ok":
+            ctx.evaluated()
+            ctx.violation("construct-failed", dict(text=text, error=c[1:]), mechanism="C12/construct-failed")
+            continue
+        for j in range(8):
+            check(ctx, im, st[1], text, c[1], {n: rnd.choice(SPLITTER_VALUES) for n in names}, "salt-sweep")
     # golden ids through whole programs (three key shapes)
     gold = golden.load()
     ks = sorted(gold)
